@@ -120,12 +120,16 @@ func memclrNoHeapPointers(ptr unsafe.Pointer, n uintptr) {
 	}
 }
 
+// fatal and throw report an unrecoverable runtime error (corrupted map state,
+// concurrent map access, ...) and terminate the process with status 2, as in Go.
 func fatal(s string) {
 	print("fatal error: ", s, "\n")
+	c.Exit(2)
 }
 
 func throw(s string) {
 	print("fatal error: ", s, "\n")
+	c.Exit(2)
 }
 
 func atomicOr8(ptr *uint8, v uint8) uint8 {
